@@ -306,8 +306,9 @@ def gen_family_programs(chk, n):
         g = G.Gen(rng, mode, ncomp=rng.choice([1, 2, 2, 3]), collide=rng.choice([0.0, 0.3]), provide=rng.choice([0.0, 0.0, 0.3]),
                   errors=rng.choice([0.0, 0.0, 0.05]), depth=rng.choice([2, 3]))
         prog = g.program()
-        regime = rng.choice(["any", "any", "page-only", "page-only", "comps-shallow", "comps-shallow", "shared-names", "shared-names"])
-        collide = regime == "shared-names"
+        regime = rng.choice(["any", "any", "page-only", "page-only", "comps-shallow", "comps-shallow", "shared-names", "shared-names",
+                             "include-reuse", "include-reuse"])
+        collide = regime in ("shared-names", "include-reuse")
         targets = ["page"] + [c for c, _ in prog["lib"]]
         if regime == "page-only":
             which, knobs = {"page"}, {}
@@ -316,6 +317,10 @@ def gen_family_programs(chk, n):
             if rng.random() < 0.5:
                 which.add("page")
             knobs = {"skip_slot_bodies": True, "p_include": 0.0}
+        elif regime == "include-reuse":
+            # the page is a family that includes partials; every included template draws its block names from the same small
+            # pool as the page family (stock {% include %} isolates them); components stay plain, so nothing is in a known class
+            which, knobs = {"page"}, {"p_include": rng.choice([0.3, 0.5]), "inc_own_namespace": True}
         else:
             which, knobs = None, {}
         fp = U.make_family_program(rng, prog, "u%d" % tries, collide=collide, which=which, knobs=knobs)
@@ -335,7 +340,8 @@ def part_b2(chk, thorough):
     for c in load_corpus_b():
         c["fp"]["regime"] = "corpus"
         cases.append({"fp": c["fp"], "flat": c["flat"], "page_named": c.get("page_named", False),
-                      "leaf_named": c.get("leaf_named", False), "features": [], "corpus_file": c["corpus_file"]})
+                      "leaf_named": c.get("leaf_named", False), "features": [], "corpus_file": c["corpus_file"],
+                      "recorded": c.get("recorded_family_output")})
     cases += gen_family_programs(chk, 12000 if thorough else 2000)
     for i, c in enumerate(cases):
         c["id"] = i
@@ -348,6 +354,7 @@ def part_b2(chk, thorough):
             obs[o["id"]] = o
     stats = {"programs": len(cases), "in_trigger_class": 0, "known_reproduced": 0, "errors_equal": 0}
     flat_terms, flat_infos = [], []
+    second = []      # programs failing inside a known class: re-run with the component families flattened
     for c in cases:
         o = obs[c["id"]]
         fp = U.norm(c["fp"])
@@ -379,6 +386,15 @@ def part_b2(chk, thorough):
         if fam_out != flat_out:
             replay = {"part": "b2", "fp": fp, "flat": U.norm(c["flat"]), "page_named": c["page_named"], "leaf_named": c["leaf_named"],
                       "family_output": fam_out, "flattened_output": flat_out, "trigger_detail": [trig, trig2], "corpus_file": c.get("corpus_file")}
+            if (trig or trig2) and c.get("recorded") is not None and list(fam_out) != list(c["recorded"]):
+                # a recorded witness of a known class must show the RECORDED wrong output, not just any wrong output
+                chk.fail("known-class-behaviour-changed", "corpus witness of a known finding renders neither like the flattened program nor "
+                         "like the recorded defective output", dict(replay, recorded_family_output=c["recorded"]))
+            if trig or trig2:
+                fp2 = U.without_component_families(fp)
+                if (fp2["page"]["chain"] or U.fam_blocks_of(fp2["page"]["root"]) or fp2["inc"]) and not U.shares_block_context(fp2) \
+                        and not U.slot_layer_class(fp2):
+                    second.append((c, fp2, replay))
             if trig:
                 stats["known_reproduced"] += 1
                 chk.fail(TRIGGER_SHARED, "component whose template family declares blocks rendered while another family's BlockContext is current: "
@@ -399,11 +415,96 @@ def part_b2(chk, thorough):
                 aflat = ab.nodes(U.fam_flatten(fam))
                 flat_terms.append("(%s, %s)" % (U.c_family(afam), U.c_fnodes(aflat)))
                 flat_infos.append({"part": "b2-flatten", "family": fam, "key": key})
+    # Inside a known class the wrong output itself is not predicted (the component-side block plumbing is not modelled).
+    # What the class does NOT excuse is checked: with every component family flattened the program is outside both classes,
+    # the page family / its includes are still families, and it must render like the flattened program.
+    if second:
+        jobs = [("b2x-%d" % si, "comp", {"cases": [{"id": c["id"], "fp": fp2, "flat": c["flat"], "page_named": c["page_named"], "leaf_named": False}
+                                                   for c, fp2, _ in sh]}) for si, sh in enumerate(shards(second, C.NCPU))]
+        obs2 = {}
+        for r in run_workers(jobs).values():
+            for o in r["obs"]:
+                obs2[o["id"]] = o
+        for c, fp2, replay in second:
+            o = obs2[c["id"]]
+            fam_out, flat_out = tuple(o["family"]), tuple(o["flat"])
+            chk.count(("b2x", json.dumps(fp2, sort_keys=True)), False, kind="b2:%s:known-class-with-component-families-flattened" % fp2["mode"])
+            if {"other:Timeout", "other:RecursionError"} & {fam_out[1], flat_out[1]}:
+                continue
+            if fam_out != flat_out:
+                chk.fail("family-not-flattened", "program of a known class still renders differently from its hand-flattened program after every "
+                         "component family was flattened (page family and includes kept): not explained by the known finding",
+                         dict(replay, fp=fp2, family_output=fam_out, flattened_output=flat_out, trigger_detail=[None, None],
+                              original_family_program=replay["fp"]))
+        stats["known_class_rechecked_without_component_families"] = len(second)
     bad = C.coq_eval_cases("C10", "flat", IMPORTS, "family * list fnode", "check_flat", flat_terms, shard=300)
     for i in bad[:10]:
         chk.disagree("harness flattening of a template family != Stock/Model.v flatten", flat_infos[i])
     stats["families_flattened_in_coq"] = len(flat_terms)
     chk.extra["part_b2"] = stats
+
+
+# ---------------------------------------------------------------------------------------------
+# (a-history) a template file used by a component, then by stock tags
+# ---------------------------------------------------------------------------------------------
+TRIGGER_FLAG = "c10-component-template-flag-shared"
+
+
+def finding_status(trigger):
+    try:
+        data = json.load(open(os.path.join(C.VERIF, "known_findings.json")))
+    except FileNotFoundError:
+        return None
+    for e in data.get("findings", []):
+        if e.get("property") == "C10" and e.get("trigger") == trigger:
+            return e.get("status")
+    return None
+
+
+def part_history(chk, thorough):
+    """History class: stock page P includes template file T; a component uses T as its template (get_template_name); P is
+    rendered again from the same loader cache.  C10: P does not use django-components, its output must not change.
+    Today `_prepare_template` flags the loader-cached Template object of T, after which stock {% include %} of T no longer
+    isolates the render context.  The class is ENFORCED only once known_findings.json lists the trigger (status known: the
+    wrong output is reported as the known finding; status fixed: any difference is a violation); until then differences
+    are counted in the evidence (`history.unregistered_differences`)."""
+    rng = chk.rng
+    cases = []
+    for i in range(400 if thorough else 80):
+        page, card = U.g1_family(rng), U.g1_family(rng)
+        if not card["chain"]:
+            card["chain"] = [U.g1_nodes(rng, 2, set(), False)]
+        tp, pleaf = U.g1_templates(page, "c10/h%d_page" % i)
+        tc, cleaf = U.g1_templates(card, "c10/h%d_card" % i)
+        root = "c10/h%d_page_root.html" % i
+        tp[root] = tp[root] + '|{%% include "%s" %%}' % cleaf
+        cases.append({"id": i, "templates": dict(tp, **tc), "main": pleaf, "component_template": cleaf,
+                      "ctx": {"r%d" % k: list(range(k)) for k in range(4)},
+                      "shared_names": sorted(set(n for t in page["chain"] + [page["root"]] for n, _ in U.g1_blocks_of(t))
+                                             & set(n for t in card["chain"] + [card["root"]] for n, _ in U.g1_blocks_of(t)))})
+    res = run_workers([("hist-%d" % si, "history", {"cases": sh}) for si, sh in enumerate(shards(cases, 4))])
+    obs = {}
+    for r in res.values():
+        for o in r["obs"]:
+            obs[o["id"]] = o
+    status = finding_status(TRIGGER_FLAG)
+    stats = {"cases": len(cases), "finding_status": status, "differences": 0, "unregistered_differences": 0}
+    for c in cases:
+        o = obs[c["id"]]
+        nontriv = bool(c["shared_names"]) and o["before"][0] == "ok"
+        chk.count(("hist", json.dumps(c["templates"], sort_keys=True)), nontriv, kind="a:history:%s" % ("shared-names" if c["shared_names"] else "distinct-names"))
+        replay = {"part": "history", "case": c, "observed": o}
+        if o["before"] != o["after_reset"]:
+            chk.disagree("stock page renders differently after loader.reset() (harness assumption broken)", replay)
+        if o["before"] != o["after"]:
+            stats["differences"] += 1
+            if status is None:
+                stats["unregistered_differences"] += 1
+                stats.setdefault("example", {"templates": c["templates"], "before": o["before"], "after": o["after"]})
+            else:
+                chk.fail(TRIGGER_FLAG, "a stock page that includes a template file renders differently after a component used that file as its "
+                         "template (loader-cached Template object flagged _djc_is_component_nested)", replay)
+    chk.extra["part_history"] = stats
 
 
 def run(tier, seed):
@@ -415,6 +516,7 @@ def run(tier, seed):
     chk.prove()
     thorough = tier == "thorough"
     part_a(chk, thorough)
+    part_history(chk, thorough)
     part_b1(chk, thorough)
     part_b2(chk, thorough)
     import collections
